@@ -2,10 +2,11 @@
 (* Behaviour extraction for C29: every history of Depth calls of the code under test     *)
 (* (from the sandbox Tree0, isolation active, code as it is) is emitted once as JSON.    *)
 (* With Prune, calls that change neither the file system nor the bookkeeping are only    *)
-(* kept as the last call of a history (elsewhere they are stuttering steps).             *)
+(* kept as the last call of a history (elsewhere they are stuttering steps); with         *)
+(* PruneLast not even there (then the shorter history covers the case).                  *)
 EXTENDS FsIsolationOps, Json
 
-CONSTANTS Depth, AllVias, Prune
+CONSTANTS Depth, AllVias, Prune, PruneLast
 
 VARIABLES fs, cr, hist
 vars == <<fs, cr, hist>>
@@ -15,7 +16,7 @@ Init == /\ fs = Tree0 /\ cr = {} /\ hist = <<>>
 Next == /\ Len(hist) < Depth
         /\ \E o \in Calls(fs, AllVias) :
              LET r == Eff(o, fs, cr, AsIs) IN
-             /\ (Prune /\ Len(hist) + 1 < Depth) => (r.fs # fs \/ r.cr # cr)
+             /\ (Prune /\ (PruneLast \/ Len(hist) + 1 < Depth)) => (r.fs # fs \/ r.cr # cr)
              /\ fs' = r.fs
              /\ cr' = r.cr
              /\ hist' = Append(hist, o)
